@@ -15,10 +15,13 @@ accepts, every output oracle (assignment of outputs, early responses and errors 
 every recursion bound `fuel` (both interpreters take the same bound, so the statements do not depend
 on termination — that is C05's subject).
 
-Where the unchanged code violates the property the statement is `…_partial` with the excluded class
-as an explicit decidable hypothesis (the classifier `finding` / `mergedGroup` the judge uses) next to
-a `…_witness` theorem, whose concrete input is also replayed on the real engine
-(`corpus/C04/F04{a,b,c,d,e}.ops`).
+The findings F04a, F04b, F04d, F04e were repaired in /repo (`fixes/F04{a,b,d,e}.patch`); the model
+mirrors the repaired code and the corresponding statements hold at full strength (their old
+witnesses are regression cases `corpus/C04/regress-F04*.ops`).  One defect is still open — F04c: an
+answering processor without a node in the response direction aborts the transaction with
+"failed to get response node" — so the statements that involve an answering processor keep that
+class as an explicit decidable hypothesis (`…_partial`, classifier `finding`) next to the witness
+`shortcircuit_noresponsenode_witness` (`corpus/C04/F04c.ops`).
 -/
 namespace LunarVerif.C04
 open LunarVerif.FlowGraph LunarVerif.FlowExec
@@ -71,34 +74,30 @@ theorem walk_refines_spec (pts : List PType) (rep : FlowRep) (f : Flow) (o : Ora
     · intro k
       have := h k
       cases d <;> simp [sflowOf, this]
-  have hns := swalk_nostop hno fuel k
-  have := rel_nostop hrel hns.1 hns.2
+  have := rel_nostop hrel (swalk_nostop hno fuel k)
   exact ⟨this.1, this.2.2, this.2.1⟩
 
 /-- **walk_refines_spec_partial.**  With answering processors: the walks agree (events, outcome, and
-    the short-circuit node equals the answering processor) whenever the reference run is outside
-    the class F04b (`pending`: an enclosing fan-out still had connections to follow when the request
-    was answered) and outside F04c (the answering processor has a node in the response direction). -/
+    the short-circuit node equals the answering processor; in particular nothing of the request
+    path runs after a processor answered, also inside a fan-out) whenever the run is outside
+    the class F04c (the answering processor has a node in the response direction). -/
 theorem walk_refines_spec_partial (pts : List PType) (rep : FlowRep) (f : Flow) (o : Oracle) (d : Dir)
     (fuel : Nat) (k : String) (hb : buildFlow pts rep = .ok f) (hk : ((f.dir d).find k).isSome = true)
-    (hb04 : (swalk (sflowOf rep) o d fuel k).pending = false)
     (hc04 : ∀ a, (swalk (sflowOf rep) o d fuel k).stop = some a → mentioned rep.res a = true) :
     (walk f o d fuel k).trace = (swalk (sflowOf rep) o d fuel k).trace ∧
     (walk f o d fuel k).err = (swalk (sflowOf rep) o d fuel k).err ∧
     (walk f o d fuel k).sc = (swalk (sflowOf rep) o d fuel k).stop := by
-  have hrel := walk_rel (built_of_buildFlow hb) o d fuel k hk
+  obtain ⟨htr, hrest⟩ := walk_rel (built_of_buildFlow hb) o d fuel k hk
   have hok := sok_swalk (sflowOf rep) o d fuel k
-  rcases hrel with h | ⟨htr, hrest⟩
-  · simp [hb04] at h
-  · cases hs : (swalk (sflowOf rep) o d fuel k).stop with
-    | none =>
-      rw [hs] at hrest
-      exact ⟨htr, hrest.2, hrest.1⟩
-    | some a =>
-      rw [hs] at hrest
-      simp only [hc04 a hs, if_true] at hrest
-      have : (swalk (sflowOf rep) o d fuel k).err = none := hok.2 (by simp [hs])
-      exact ⟨htr, by rw [hrest.2, this], hrest.1⟩
+  cases hs : (swalk (sflowOf rep) o d fuel k).stop with
+  | none =>
+    rw [hs] at hrest
+    exact ⟨htr, hrest.2, hrest.1⟩
+  | some a =>
+    rw [hs] at hrest
+    simp only [hc04 a hs, if_true] at hrest
+    have : (swalk (sflowOf rep) o d fuel k).err = none := hok (by simp [hs])
+    exact ⟨htr, by rw [hrest.2, this], hrest.1⟩
 
 /-! concrete inputs for the witnesses (the same configurations are in `corpus/C04/*.ops`) -/
 
@@ -109,47 +108,46 @@ def wE : End := .stream "globalStream" "end"
 /-- processor `G` answers the request; everything else emits its unnamed output -/
 def wOracle : Oracle := fun _ k d => if k == "G" && d == .req then { early := true } else {}
 
-/-- F04b: `A → G`, `A → B` (fan-out), `G` answers -/
+/-- former F04b: `A → G`, `A → B` (fan-out), `G` answers -/
 def wRepB : FlowRep :=
   ⟨"f1", [("A", "PU"), ("G", "PG"), ("B", "PU")],
    [⟨wS, .proc "A" ""⟩, ⟨.proc "A" "", .proc "G" ""⟩, ⟨.proc "A" "", .proc "B" ""⟩, ⟨.proc "B" "", wE⟩],
    [⟨.proc "G" "", wE⟩]⟩
 
-/-- **walk_fanout_violation_witness (F04b).**  The unrestricted statement is false: in the fan-out
-    `A → {G, B}` the engine still executes `B` after `G` answered the request, and returns no
-    short-circuit node. -/
-theorem walk_fanout_violation_witness :
-    ∃ (pts : List PType) (rep : FlowRep) (f : Flow) (o : Oracle) (fuel : Nat) (k : String),
-      buildFlow pts rep = .ok f ∧ ((f.dir .req).find k).isSome = true ∧
-      ¬ ((walk f o .req fuel k).trace = (swalk (sflowOf rep) o .req fuel k).trace ∧
-         (walk f o .req fuel k).sc = (swalk (sflowOf rep) o .req fuel k).stop) := by
-  refine ⟨[wPU, wPG], wRepB,
-    ⟨"f1", ⟨some "A", [⟨"A", [⟨"", .node "G"⟩, ⟨"", .node "B"⟩]⟩, ⟨"G", []⟩, ⟨"B", [⟨"", .stream "globalStream" "end"⟩]⟩]⟩,
-           ⟨none, [⟨"G", [⟨"", .stream "globalStream" "end"⟩]⟩]⟩⟩,
-    wOracle, 5, "A", okVal_eq (by decide), by decide, by decide⟩
+/-- non-vacuity (and regression of F04b): in the fan-out `A → {G, B}` the walk stops when `G`
+    answers — `B` does not run — and `G` is returned as the short-circuit node. -/
+example :
+    (okVal (buildFlow [wPU, wPG] wRepB)).map (fun f => ((walk f wOracle .req 5 "A").trace, (walk f wOracle .req 5 "A").sc))
+      = some ([.exec "f1" "A" .req {}, .exec "f1" "G" .req { early := true }], some "G") := by decide
 
 /-! ## 3. The response continuation after a short-circuit -/
 
-/-- **shortcircuit_continues_partial.**  After processor `k` answered the request, the engine's
-    response walk of that flow (`executeFlow` started from the short-circuit node) equals the
-    reference continuation — the walk from the first response connection leaving `k` — provided
-    `k` has a response node (¬F04c), a continuation to a processor finds a stream entry in the
-    response direction (¬F04a), and a missing continuation finds none (¬F04d). -/
-theorem shortcircuit_continues_partial (pts : List PType) (rep : FlowRep) (f : Flow) (o : Oracle)
+/-- **shortcircuit_continues.**  After processor `k` answered the request, the engine's response
+    walk of that flow (`executeFlow` started from the short-circuit node `k`, a node of the response
+    direction) equals the reference continuation: the walk from the first response connection
+    leaving `k` — whether or not the response direction has a stream entry; no such connection, or a
+    connection to the stream, ends the walk. -/
+theorem shortcircuit_continues (pts : List PType) (rep : FlowRep) (f : Flow) (o : Oracle)
     (fuel : Nat) (k : String) (hb : buildFlow pts rep = .ok f)
-    (hc04 : mentioned rep.res k = true)
-    (ha04 : ∀ t c, firstConn rep.res k = some (.proc t c) → (entry rep.res).isSome = true)
-    (hd04 : firstConn rep.res k = none → entry rep.res = none) :
+    (hk : (f.res.find k).isSome = true) :
     (executeFlow f o .res fuel (some k)).trace = (scontinue (sflowOf rep) o fuel k).trace ∧
-    (executeFlow f o .res fuel (some k)).err = (scontinue (sflowOf rep) o fuel k).err :=
-  continue_eq (built_of_buildFlow hb) o fuel k hc04 ha04 hd04
+    (executeFlow f o .res fuel (some k)).err = (scontinue (sflowOf rep) o fuel k).err := by
+  have hb' := built_of_buildFlow hb
+  exact continue_eq hb' o fuel k (by rw [← find_isSome_eq hb'.res]; exact hk)
 
-/-- F04a: request `A → G`; response `G → P → end` WITHOUT stream entry (accepted by `validateDirection`) -/
+/-- former F04a: request `A → G`; response `G → P → end` WITHOUT stream entry -/
 def wCfgA : Cfg :=
   { ptypes := [wPU, wPG]
     flows := [⟨.user, ⟨"f1", [("A", "PU"), ("G", "PG"), ("P", "PU")],
       [⟨wS, .proc "A" ""⟩, ⟨.proc "A" "", .proc "G" ""⟩],
       [⟨.proc "G" "", .proc "P" ""⟩, ⟨.proc "P" "", wE⟩]⟩⟩] }
+
+/-- former F04d: response `start → R → G`, `G` without outgoing connection -/
+def wCfgD : Cfg :=
+  { ptypes := [wPU, wPG]
+    flows := [⟨.user, ⟨"f1", [("A", "PU"), ("G", "PG"), ("R", "PU")],
+      [⟨wS, .proc "A" ""⟩, ⟨.proc "A" "", .proc "G" ""⟩],
+      [⟨wS, .proc "R" ""⟩, ⟨.proc "R" "", .proc "G" ""⟩]⟩⟩] }
 
 /-- the model's answer for a whole configuration (`none` = rejected by the loader) -/
 def modelTxn (c : Cfg) (order : List String) (o : Oracle) (d : Dir) (fuel : Nat) :
@@ -162,20 +160,21 @@ def specTxn (c : Cfg) (order : List String) (o : Oracle) (d : Dir) (fuel : Nat) 
     List Event × Option ExecErr :=
   ((stxn (specCfg c order) o fuel d).trace, (stxn (specCfg c order) o fuel d).err)
 
-/-- **shortcircuit_rootless_witness (F04a).**  The loader accepts a response direction without
-    stream entry; `executeFlow` returns at `start == nil` before looking at the short-circuit node,
-    so the continuation `G → P` never runs: the engine enters the response direction of `f1` and
-    executes nothing, the reference executes `P`. -/
-theorem shortcircuit_rootless_witness :
-    ∃ (c : Cfg) (order : List String) (o : Oracle) (fuel : Nat),
-      modelTxn c order o .req fuel =
-        some ([.enter "f1" .req, .exec "f1" "A" .req {}, .exec "f1" "G" .req { early := true },
-               .enter "f1" .res], none) ∧
-      specTxn c order o .req fuel =
-        ([.enter "f1" .req, .exec "f1" "A" .req {}, .exec "f1" "G" .req { early := true },
-          .enter "f1" .res, .exec "f1" "P" .res {}], none) ∧
-      finding (stxn (specCfg c order) o fuel .req) = some "F04a" :=
-  ⟨wCfgA, ["f1"], wOracle, 8, by decide, by decide, by decide⟩
+/-- non-vacuity (regression of F04a): without stream entry in the response direction the continuation
+    `G → P` runs. -/
+example :
+    modelTxn wCfgA ["f1"] wOracle .req 8 =
+      some ([.enter "f1" .req, .exec "f1" "A" .req {}, .exec "f1" "G" .req { early := true },
+             .enter "f1" .res, .exec "f1" "P" .res {}], none) ∧
+    modelTxn wCfgA ["f1"] wOracle .req 8 = some (specTxn wCfgA ["f1"] wOracle .req 8) := by decide
+
+/-- non-vacuity (regression of F04d): no connection leaves the answering node — the response walk of
+    the flow is empty although the direction has a stream entry. -/
+example :
+    modelTxn wCfgD ["f1"] wOracle .req 8 =
+      some ([.enter "f1" .req, .exec "f1" "A" .req {}, .exec "f1" "G" .req { early := true },
+             .enter "f1" .res], none) ∧
+    modelTxn wCfgD ["f1"] wOracle .req 8 = some (specTxn wCfgD ["f1"] wOracle .req 8) := by decide
 
 /-- F04c: request `A → G`; the response direction has no node `G` at all -/
 def wCfgC : Cfg :=
@@ -194,53 +193,31 @@ theorem shortcircuit_noresponsenode_witness :
       finding (stxn (specCfg c order) o fuel .req) = some "F04c" :=
   ⟨wCfgC, ["f1"], wOracle, 8, by decide, by decide, by decide⟩
 
-/-- F04d: response `start → R → G`, `G` without outgoing connection -/
-def wCfgD : Cfg :=
-  { ptypes := [wPU, wPG]
-    flows := [⟨.user, ⟨"f1", [("A", "PU"), ("G", "PG"), ("R", "PU")],
-      [⟨wS, .proc "A" ""⟩, ⟨.proc "A" "", .proc "G" ""⟩],
-      [⟨wS, .proc "R" ""⟩, ⟨.proc "R" "", .proc "G" ""⟩]⟩⟩] }
-
-/-- **shortcircuit_noedge_witness (F04d).**  The engine walks the whole response flow from the stream
-    entry (`R`, then `G` again); the reference continuation is empty. -/
-theorem shortcircuit_noedge_witness :
-    ∃ (c : Cfg) (order : List String) (o : Oracle) (fuel : Nat),
-      modelTxn c order o .req fuel =
-        some ([.enter "f1" .req, .exec "f1" "A" .req {}, .exec "f1" "G" .req { early := true },
-               .enter "f1" .res, .exec "f1" "R" .res {}, .exec "f1" "G" .res {}], none) ∧
-      specTxn c order o .req fuel =
-        ([.enter "f1" .req, .exec "f1" "A" .req {}, .exec "f1" "G" .req { early := true },
-          .enter "f1" .res], none) ∧
-      finding (stxn (specCfg c order) o fuel .req) = some "F04d" :=
-  ⟨wCfgD, ["f1"], wOracle, 8, by decide, by decide, by decide⟩
-
 /-! ## 4. Whole transactions -/
 
 /-- **txn_refines_spec_partial** (the connection theorem).  For every configuration the model's
     loader accepts, every build order, every oracle, both directions and every fuel: outside the
-    decidable classes of the known findings (`finding … = none` excludes F04a–d, `mergedGroup` is
-    F04e) and provided system-flow processors never answer a request, the engine model's event
-    sequence and outcome are exactly the reference interpreter's. -/
+    decidable class of the open finding (`finding … = none` excludes F04c) and provided system-flow
+    processors never answer a request, the engine model's event sequence and outcome are exactly
+    the reference interpreter's. -/
 theorem txn_refines_spec_partial (c : Cfg) (order : List String) (l : Loaded) (o : Oracle) (d : Dir)
     (fuel : Nat) (hl : load c order = .ok l)
-    (he04 : mergedGroup c.quotas = false)
     (hq : SysQuiet (specCfg c order) o)
-    (habcd : finding (stxn (specCfg c order) o fuel d) = none) :
+    (hc04 : finding (stxn (specCfg c order) o fuel d) = none) :
     (transaction l.selected o fuel d).trace = (stxn (specCfg c order) o fuel d).trace ∧
     (transaction l.selected o fuel d).err = (stxn (specCfg c order) o fuel d).err :=
-  txn_eq c order l o d fuel hl he04 hq habcd
+  txn_eq c order l o d fuel hl hq hc04
 
 /-- The predicate the judge evaluates on the implementation's answers (`holds`) is true of every
-    run of the model outside the finding classes: a judge failure on the implementation is a
-    divergence from the proved model or a listed finding. -/
+    run of the model outside the class of F04c: a judge failure on the implementation is a
+    divergence from the proved model or the listed finding. -/
 theorem judge_holds_of_model_partial (c : Cfg) (order : List String) (l : Loaded) (o : Oracle) (d : Dir)
     (fuel : Nat) (hl : load c order = .ok l)
-    (he04 : mergedGroup c.quotas = false)
     (hq : SysQuiet (specCfg c order) o)
-    (habcd : finding (stxn (specCfg c order) o fuel d) = none) :
+    (hc04 : finding (stxn (specCfg c order) o fuel d) = none) :
     holds (specCfg c order) o d fuel (transaction l.selected o fuel d).trace
       (transaction l.selected o fuel d).err = true := by
-  have h := txn_eq c order l o d fuel hl he04 hq habcd
+  have h := txn_eq c order l o d fuel hl hq hc04
   simp [holds, h.1, h.2]
 
 /-- two user flows and a quota; `f1.B` branches on `a`/`b`, `f2.G` answers the request -/
@@ -263,10 +240,10 @@ def wOracleOK : Oracle := fun f k d =>
 /-- non-vacuity of the connection theorem: an accepted configuration outside every finding class
     with a branching walk, a short-circuit, system flows and a response phase. -/
 example :
-    (okVal (load wCfgOK ["f1", "f2"])).isSome = true ∧ mergedGroup wCfgOK.quotas = false ∧
+    (okVal (load wCfgOK ["f1", "f2"])).isSome = true ∧
     finding (stxn (specCfg wCfgOK ["f1", "f2"]) wOracleOK 9 .req) = none ∧
     (specTxn wCfgOK ["f1", "f2"] wOracleOK .req 9).1.length = 17 := by
-  refine ⟨by decide, by decide, by decide, by decide⟩
+  refine ⟨by decide, by decide, by decide⟩
 
 /-! ## 5. Order of flows -/
 
@@ -306,21 +283,18 @@ example :
 
 /-! ## 6. System flows of quotas -/
 
-/-- **system_flow_chain_partial.**  When no two quotas share a filter, the system flows the engine
-    generates are the reference ones (every quota processor wired in sequence between stream start
-    and stream end). -/
-theorem system_flow_chain_partial (qs : List Quota) (he04 : mergedGroup qs = false) :
-    sysDecls sysConns qs = sysDecls chainConns qs :=
-  sysDecls_eq qs he04
+/-- **system_flow_chain.**  The system flows the engine generates for any list of quotas are the
+    reference ones: within each filter group every quota processor is wired in sequence between
+    stream start and stream end (`start → p₁ → … → pₙ → end`), also when several quotas share a
+    filter. -/
+theorem system_flow_chain (qs : List Quota) : sysDecls sysConns qs = sysDecls chainConns qs :=
+  sysDecls_eq qs
 
-/-- **system_flow_merged_witness (F04e).**  Two quotas with the same filter: the generated system
-    start flow wires only the last processor — `q1_QuotaProcessorInc` is not even a node of the built
-    request direction, so quota `q1` is never counted. -/
-theorem system_flow_merged_witness :
-    ∃ (qs : List Quota),
-      mergedGroup qs = true ∧ sysDecls sysConns qs ≠ sysDecls chainConns qs ∧
-      (okVal (load { quotas := qs } [])).map
-        (fun l => l.selected.start.map (fun f => f.req.nodes.map (·.key))) = some [["q2_QuotaProcessorInc"]] :=
-  ⟨[⟨"q1", "q1", true, false⟩, ⟨"q2", "q2", false, false⟩], by decide, by decide, by decide⟩
+/-- non-vacuity (regression of F04e): two quotas with the same filter — both Inc processors are nodes
+    of the merged system start flow, in order. -/
+example :
+    (okVal (load { quotas := [⟨"q1", "q1", true, false⟩, ⟨"q2", "q2", false, false⟩] } [])).map
+      (fun l => l.selected.start.map (fun f => (f.req.root, f.req.nodes.map (·.key)))) =
+    some [(some "q1_QuotaProcessorInc", ["q1_QuotaProcessorInc", "q2_QuotaProcessorInc"])] := by decide
 
 end LunarVerif.C04
